@@ -229,8 +229,10 @@ class W3PerDocWriter(base.PerDocWriterWithColumns):
         if self._vpostfile is None:
             self._prep_vectors()
 
-        # Write vector postings
+        # Write vector postings. Vectors are located through their offset in
+        # the vector file, so they must never be inlined into the term info.
         vpostwriter = self._codec.postings_writer(self._vpostfile, byteids=True)
+        vpostwriter._inlinelimit = 1
         vpostwriter.start_postings(fieldobj.vector, W3TermInfo())
         for text, weight, vbytes in items:
             vpostwriter.add_posting(text, weight, vbytes)
